@@ -255,6 +255,15 @@ def ub_variant_payload(b, p, depth):
             nm = callee_name(d[3]) or ''
             if re.search(r'::from_residual$', nm) and proj[0]['d'] in ('Ok', 'Some'):
                 continue        # `?` re-raising: builds Err / None
+            # the result of a function of the crate: the same component of what that function returns
+            tg = [q_ for q_ in b.facts.call_targets(d[3], expand_traits=False) if q_ in b.facts.bodies] if getattr(b, 'facts', None) else []
+            if len(tg) == 1 and depth < 6 and not b.facts.bodies[tg[0]].is_coroutine:
+                r = ub_variant_payload(b.facts.bodies[tg[0]], {'l': 0, 'p': proj}, depth + 2)
+                if r is None:
+                    return None
+                if r != 'never':
+                    best = r if best == 'never' else max(best, r)
+                continue
             return None
         rv = d[3]['rv']
         src = rv
